@@ -194,6 +194,10 @@ func (sc *Scheduler) Schedule(ctx context.Context, g *ExecutionGraph, done chan 
 							node.setStatus(NodeStatusCancel)
 							sc.setLastError(execErr)
 						case sc.isCanceled():
+							// the command failed after the run was canceled (a repeating
+							// step, which is not signalled, or a step the stop request has
+							// not reached yet)
+							node.setStatus(NodeStatusCancel)
 							sc.setLastError(execErr)
 						case node.data.Step.RetryPolicy != nil && node.data.Step.RetryPolicy.Limit > node.getRetryCount():
 							// retry
